@@ -17,6 +17,8 @@ import (
 // bytes that cannot continue a JSON number
 var floatFollowers = []string{"", " ", "\n", ",", "]", "}", ":", "\"", "x", "n", "\x00", "\xff", "\t", "[", "{", "t"}
 
+const longTail = ", 4, 5, 6, 7, 8, 9, 10, 11, 12, 13, 14, 15, 16]"
+
 func sigDigits(lit string) (n int, exp bool) {
 	started := false
 	for i := 0; i < len(lit); i++ {
@@ -97,12 +99,14 @@ func checkFloatLiteral(c *Ctx, cs *h.Case) {
 	}
 	want, wantOK := refmodel.Float(lit)
 	exactOracle := false
-	if intPartDigits(lit) > 800 {
+	if intPartDigits(lit) > 800 || expDigits(lit) >= 5 {
 		// strconv itself misplaces the decimal point when more than 800 integer-part digits
-		// reach its slow path (see DESIGN.md §9, finding 4): use exact rational arithmetic.
+		// reach its slow path (see DESIGN.md §9, finding 4), and it stops accumulating the exponent
+		// at five digits, which is wrong once the literal has that many digits to compensate
+		// (finding 5): use exact rational arithmetic.
 		if ef, eok, valid := refmodel.ExactFloat(lit); valid {
 			want, wantOK, exactOracle = ef, eok, true
-			c.Rec.C("oracle_is_exact_rational_arithmetic_because_integer_part_exceeds_800_digits")
+			c.Rec.C("oracle_is_exact_rational_arithmetic_where_strconv_is_known_to_be_wrong")
 		}
 	}
 	nd, hasExp := sigDigits(lit)
@@ -140,6 +144,11 @@ func checkFloatLiteral(c *Ctx, cs *h.Case) {
 	followers := floatFollowers
 	if !c.Thorough() {
 		followers = []string{"", floatFollowers[1+r.Intn(len(floatFollowers)-1)], floatFollowers[1+r.Intn(len(floatFollowers)-1)]}
+		if h.Hash(cs.Input)%4 == 0 {
+			followers = append(followers, longTail) // many bytes remaining after the literal
+		}
+	} else {
+		followers = append(append([]string{}, followers...), longTail)
 	}
 	c.Guarded(cs, "ReadFloat64", func() {
 		for fi, fol := range followers {
@@ -214,6 +223,22 @@ func checkFloatLiteral(c *Ctx, cs *h.Case) {
 	if c.Rec.WantSample() && c.Rec.R.Cases%3001 == 1 {
 		c.Rec.Sample(map[string]interface{}{"literal": trunc(lit), "how": cs.Describe(), "strconv": fmt.Sprintf("%v ok=%v", want, wantOK), "significant_digits": nd})
 	}
+}
+
+// expDigits counts the digits of the exponent after its sign and leading zeros (0 without exponent).
+func expDigits(lit string) int {
+	i := strings.IndexAny(lit, "eE")
+	if i < 0 {
+		return 0
+	}
+	i++
+	if i < len(lit) && (lit[i] == '+' || lit[i] == '-') {
+		i++
+	}
+	for i < len(lit) && lit[i] == '0' {
+		i++
+	}
+	return len(lit) - i
 }
 
 // intPartDigits counts the digits of the integer part after leading zeros.
@@ -326,7 +351,29 @@ var intReaders = []intReader{
 
 // C05: integer readers are exact and range-checked.
 func RunC05(c *Ctx) {
-	check := func(cs *h.Case) {
+	var check func(cs *h.Case)
+	views := func(cs *h.Case) {
+		check(cs)
+		// the same token on three more views: a copy with cap == len (a read through the capacity
+		// panics), a copy whose spare capacity holds more digits (such a read would extend the number;
+		// seeded change C05r7-m1), and followed by a long tail (a hot path that only engages when many
+		// bytes remain; seeded change C05r7-m2: '-0123...' with 20 or more bytes left)
+		if n := len(cs.Input); n <= 40 && c.Rec.R.Cases%2 == 0 {
+			orig := cs.Input
+			tight := make([]byte, n)
+			copy(tight, orig)
+			v := *cs
+			v.Input = tight[:n:n]
+			check(&v)
+			v.Input = withBait(orig)
+			check(&v)
+			v.Input = append(append([]byte(nil), orig...), ", 4, 5, 6, 7, 8, 9, 10, 11, 12]"...)
+			v.DescFn, v.Desc = nil, cs.Describe()+" + long tail"
+			check(&v)
+			c.Rec.C("inputs_also_run_as_tight_baited_and_long_tailed_views")
+		}
+	}
+	check = func(cs *h.Case) {
 		d := cs.Input
 		for _, r := range intReaders {
 			r := r
@@ -378,7 +425,7 @@ func RunC05(c *Ctx) {
 			c.Rec.R.Nontrivial++
 		}
 		c.Mark("C05 "+cs.Family, cs.Input)
-		check(cs)
+		views(cs)
 	}
 	window, nrand := 300, 200000
 	if c.Thorough() {
